@@ -406,14 +406,15 @@ def slotRow (a : List Int) (p c g : List Num) (ra : List (List Int))
     (fun (a, p, c, g, ra, rp, rc) =>
       { asg := a, prob := p, corr := c, agg := g, rAsg := ra, rProb := rp, rCorr := rc })
 
-def decCells (h : H5) (hasR : Bool) :
+def decCells (hierarchy : List Lvl) (directlyAssigned : List Bool)
+    (intToNode : List (Lvl × List NodeId)) (hasR : Bool) :
     List (StrId × List Slot) → Except Err (List Record)
   | [] => .ok []
   | (cid, row) :: rest =>
-    match decCell h.intToNode hasR (h.tree.hierarchy.zip (h.directlyAssigned.zip row)) with
+    match decCell intToNode hasR (hierarchy.zip (directlyAssigned.zip row)) with
     | .error e => .error e
     | .ok levels =>
-      match decCells h hasR rest with
+      match decCells hierarchy directlyAssigned intToNode hasR rest with
       | .error e => .error e
       | .ok rs => .ok ({ cellId := cid, levels := levels } :: rs)
 
@@ -428,9 +429,55 @@ def ofH5 (h : H5) : Except Err Blob :=
   let rows : List (List Slot) :=
     (h.assignment.zip (h.prob.zip (h.corr.zip (h.agg.zip (ra.zip (rp.zip rc)))))).map
       (fun (a, p, c, g, ra, rp, rc) => slotRow a p c g ra rp rc)
-  match decCells h hasR (h.cellId.zip rows) with
+  match decCells h.tree.hierarchy h.directlyAssigned h.intToNode hasR (h.cellId.zip rows) with
   | .error e => .error e
   | .ok rs => .ok { tree := h.tree, nRunners := h.nRunners, results := rs }
+
+/-! ### `OutInv`: what C01 / C03 establish about the extended output -/
+
+/-- the number is a float (possibly `NaN`), not JSON `null` -/
+def numOK : Num → Bool
+  | .null => false
+  | _ => true
+
+def nodupB : List Nat → Bool
+  | [] => true
+  | x :: xs => !(xs.contains x) && nodupB xs
+
+/-- one level of one record: the assignment is a node of its level, the flag
+is the level's flag, the numbers are present; on a directly assigned level
+the three runner-up lists are present, of equal length ≤ `n_runners_up`, and
+name nodes of the level; on an inferred level they are absent -/
+def levelOK (nodes : List NodeId) (nRunners : Nat) (flag : Bool) (lr : LevelRec) : Bool :=
+  nodes.contains lr.assignment && (lr.direct == flag) &&
+  numOK lr.prob && numOK lr.corr && numOK lr.agg &&
+  (if flag then
+    match lr.runAsg, lr.runProb, lr.runCorr with
+    | some ra, some rp, some rc =>
+      (ra.length == rp.length) && (ra.length == rc.length) && decide (ra.length ≤ nRunners) &&
+      ra.all nodes.contains && rp.all numOK && rc.all numOK
+    | _, _, _ => false
+  else lr.runAsg.isNone && lr.runProb.isNone && lr.runCorr.isNone)
+
+/-- every level entry of a record is `levelOK` w.r.t. the node list of its
+level and the flag the *first* record has at that level (uniform flag) -/
+def levelsOK (t : Tree) (nRunners : Nat) (first : Record) : List (Lvl × LevelRec) → Bool
+  | [] => true
+  | (l, lr) :: rest =>
+    (match t.nodesAt l, first.levels.lookup l with
+     | some nodes, some f => levelOK nodes nRunners f.direct lr
+     | _, _ => false) && levelsOK t nRunners first rest
+
+/-- `OutInv`: at least one cell; distinct level names; every record has
+exactly the levels of the hierarchy (kept in hierarchy order) and each of
+them is `levelOK` -/
+def outInv (b : Blob) : Bool :=
+  match b.results with
+  | [] => false
+  | first :: _ =>
+    nodupB b.tree.hierarchy &&
+    b.results.all (fun r =>
+      (r.levels.map (·.1) == b.tree.hierarchy) && levelsOK b.tree b.nRunners first r.levels)
 
 /-! ### CSV side -/
 
